@@ -6,7 +6,16 @@ import HumphreyModel.Spec.Auth
 Driver for C17. One case = one whole operation sequence.
 
 `seq <TAB> cfg <TAB> init <TAB> ops <TAB> impl-output`
-* `cfg`  = `pepper,defaultLifetime,defaultRefreshLifetime,now0` (decimal; pepper 0 = none)
+* `cfg`  = `pepper,defaultLifetime,defaultRefreshLifetime,now0` (decimal; pepper 0 = none): the configuration
+  `AuthConfig::default().with_default_lifetime(..).with_default_refresh_lifetime(..)[.with_pepper(..)]` handed to
+  `with_config` once; `init` hashed with the same pepper.
+
+`seqb <TAB> build <TAB> initPepper,now0 <TAB> init <TAB> ops <TAB> impl-output`: the same with the SET-UP CODE spelled
+out. `build` = `-` or `,`-separated calls in the order they are made on `let mut cfg = AuthConfig::default(); let mut
+provider = AuthProvider::new(users)`: `dl:n` `rl:n` `pp:n` (`cfg = cfg.with_default_lifetime(n)` / `…refresh_lifetime`
+/ `with_pepper(pepper-n)`, n >= 1), `nc` (`cfg = AuthConfig::default()`), `cc` (`cfg = cfg.clone()`), `wc` (`provider
+= provider.with_config(cfg.clone())`), `pd` (first only: `provider = AuthProvider::default()`). `initPepper` = the
+pepper the `init` users were hashed with outside the provider (0 = none).
 * `init` = `-` or `uid:pw,uid:pw,…` users present before the first operation (hashed with `cfg.pepper`)
 * `ops`  = `;`-separated: `cu:pw:U` `ru:u` `vf:u:pw` `ex:u` `cs:u:T` `cl:u:lifetime:T` `rf:t` `is:t` `iu:u`
            `gt:t` `ar:t` / `ar:-` (no cookie) and `tk:d` (advance the clock by `d`).
@@ -126,19 +135,37 @@ def runModel (cfg : Config Nat) : MDb → Nat → Nat → Nat → List Item → 
     let (nU, nT) := bump o r.2 nU nT
     runModel cfg r.1 now nU nT rest ((outStr r.2 ++ obsStr (userExists r.1) (ownerM r.1 now) nU nT) :: acc)
 
-abbrev SState := Spec.State Nat Nat Pw
+/-- The specification's passwords: what has to be presented for a user is the password TOGETHER WITH the pepper it
+was hashed under (the hash contract: `verify` succeeds iff both are equal). A user put into the database from outside
+carries the pepper it was hashed with there; the provider presents its configured pepper. -/
+abbrev SPw := Pw × Nat
 
-/-- Replay through the abstract specification. -/
-def runSpec (dl rl : Nat) : SState → Nat → Nat → Nat → List Item → List String → List String
+abbrev SState := Spec.State Nat Nat SPw
+
+def specOp (pep : Nat) : MOp → Op Nat Nat SPw Nat
+  | .createUser p s u => .createUser (p, pep) s u
+  | .removeUser u => .removeUser u
+  | .verify u p => .verify u (p, pep)
+  | .userExists u => .userExists u
+  | .createSession u t => .createSession u t
+  | .createSessionWithLifetime u l t => .createSessionWithLifetime u l t
+  | .refreshSession t => .refreshSession t
+  | .invalidateSession t => .invalidateSession t
+  | .invalidateUserSession u => .invalidateUserSession u
+  | .getUidByToken t => .getUidByToken t
+  | .authRoute c => .authRoute c
+
+/-- Replay through the abstract specification (`pep` = the pepper the provider is configured with). -/
+def runSpec (dl rl pep : Nat) : SState → Nat → Nat → Nat → List Item → List String → List String
   | _, _, _, _, [], acc => acc.reverse
   | a, now, nU, nT, .tick d :: rest, acc =>
     let now := now + d
-    runSpec dl rl a now nU nT rest
+    runSpec dl rl pep a now nU nT rest
       (("-" ++ obsStr (fun u => (a.pw u).isSome) (Spec.live a now) nU nT) :: acc)
   | a, now, nU, nT, .op o :: rest, acc =>
-    let r := Spec.step dl rl a o now
+    let r := Spec.step dl rl a (specOp pep o) now
     let (nU, nT) := bump o r.2 nU nT
-    runSpec dl rl r.1 now nU nT rest
+    runSpec dl rl pep r.1 now nU nT rest
       ((outStr r.2 ++ obsStr (fun u => (r.1.pw u).isSome) (Spec.live r.1 now) nU nT) :: acc)
 
 def parseInit (s : String) : Option (List (Nat × Pw)) :=
@@ -156,24 +183,65 @@ def parseTries (s : String) : Option (List (Pw × String)) :=
 
 def bits (l : List Bool) : String := String.ofList (l.map (fun b => if b then '1' else '0'))
 
-def seqCase (cfgS initS opsS impl : String) : Option Verdict := do
-  let [pep, dl, rl, now0] ← nats cfgS "," | none
+abbrev MCall := BCall Nat
+
+/-- One line of set-up code (pepper `n >= 1` = the bytes `pepper-n`; `0` is "no pepper" and cannot be set). -/
+def parseCall (s : String) : Option MCall :=
+  match s.splitOn ":" with
+  | ["dl", n] => do some (.defaultLifetime (← n.toNat?))
+  | ["rl", n] => do some (.refreshLifetime (← n.toNat?))
+  | ["pp", n] => do
+    let p ← n.toNat?
+    if p == 0 then none else some (.pepper p)
+  | ["nc"] => some .newConfig
+  | ["cc"] => some .cloneConfig
+  | ["wc"] => some .withConfig
+  | ["pd"] => some .providerDefault
+  | _ => none
+
+/-- The set-up code `calls`, users hashed with `initPep` put into the database from outside, clock `now0`.
+The model runs the builder call by call (`build`); the specification is told what the calls denote
+(`Spec.effective`: last `with_config`, last call per field, defaults otherwise). -/
+def runCase (calls : List MCall) (initPep now0 : Nat) (initS opsS impl : String) : Option Verdict := do
   let init ← parseInit initS
   let items ← (if opsS == "-" then some [] else (opsS.splitOn ";").mapM parseItem)
-  let cfg : Config Nat := { defaultLifetime := dl, defaultRefreshLifetime := rl, pepper := pep }
-  let db0 : MDb := init.map (fun (u, p) => { uid := u, pwHash := hsExec.hash p 0 pep, session := none })
+  let cfg : Config Nat := build 0 calls
+  let eff := Spec.effective 0 calls
+  let db0 : MDb := init.map (fun (u, p) => { uid := u, pwHash := hsExec.hash p 0 initPep, session := none })
   let a0 : SState :=
-    { pw := fun u => (init.find? (fun x => x.1 == u)).map (·.2), sess := fun _ => none,
+    { pw := fun u => (init.find? (fun x => x.1 == u)).map (fun x => (x.2, initPep)), sess := fun _ => none,
       drawnUids := init.map (·.1), drawnToks := [] }
   let nU := init.foldl (fun n x => max n (x.1 + 1)) 0
   let m := ";".intercalate (runModel cfg db0 now0 nU 0 items []) ++ "#fmt=ok"
-  let s := ";".intercalate (runSpec dl rl a0 now0 nU 0 items []) ++ "#fmt=ok"
+  let s := ";".intercalate (runSpec eff.lifetime eff.refreshLifetime eff.pepper a0 now0 nU 0 items []) ++ "#fmt=ok"
   some { model := m, spec := some (impl == s) }
+
+/-- `seq`: the configuration given by its three values, set in declaration order and installed once. -/
+def seqCase (cfgS initS opsS impl : String) : Option Verdict := do
+  let [pep, dl, rl, now0] ← nats cfgS "," | none
+  let calls : List MCall :=
+    [.defaultLifetime dl, .refreshLifetime rl] ++ (if pep == 0 then [] else [.pepper pep]) ++ [.withConfig]
+  runCase calls pep now0 initS opsS impl
+
+/-- `seqb`: the set-up code itself (`-` = none, else `,`-separated calls). `pd` (`AuthProvider::default()`, which has
+no users) only in front and only with an empty `init`. -/
+def seqbCase (buildS miscS initS opsS impl : String) : Option Verdict := do
+  let [initPep, now0] ← nats miscS "," | none
+  let calls ← (if buildS == "-" then some [] else (buildS.splitOn ",").mapM parseCall)
+  let pdOk := match calls with
+    | .providerDefault :: rest => initS == "-" && !rest.any (fun c => match c with | .providerDefault => true | _ => false)
+    | l => !l.any (fun c => match c with | .providerDefault => true | _ => false)
+  if !pdOk then none
+  runCase calls initPep now0 initS opsS impl
 
 def dispatch (fn : String) (args : List String) (impl : String) : Option Verdict :=
   match fn, args with
   | "seq", [cfgS, initS, opsS] =>
     match seqCase cfgS initS opsS impl with
+    | some v => some v
+    | none => some { model := "BADARGS" }
+  | "seqb", [buildS, miscS, initS, opsS] =>
+    match seqbCase buildS miscS initS opsS impl with
     | some v => some v
     | none => some { model := "BADARGS" }
   | "pepper2", [p, p', pep, pep'] =>
